@@ -176,8 +176,6 @@ example : ProgOK exSt.imem := ProgOK_of_allb _ (by decide)
 example : ICoh exSt.imem := ICoh_nocache _ rfl (by decide)
 example : PInv (PSt.init exSt true) := PInv_init _ _ (ProgOK_of_allb _ (by decide)) (ICoh_nocache _ rfl (by decide))
 
-instance (n : Nat) (p : PSt) : Decidable (runOK n p) := by unfold runOK; infer_instance
-
 /-- The example run: 23 non-faulting cycles, done exactly then, 8 instructions retired (the
     instruction behind the taken branch is squashed), 4 stalls, 4 flushes, exit code 0. -/
 example :
